@@ -26,6 +26,11 @@ def _worker(wid, modname, task_q, res_q):
   os.environ['TF_NUM_INTRAOP_THREADS'] = '1'
   os.environ['TF_NUM_INTEROP_THREADS'] = '1'
   try:
+    try:
+      from absl import logging as absl_logging
+      absl_logging.set_verbosity(absl_logging.ERROR)
+    except Exception:  # pylint: disable=broad-except
+      pass
     mod = importlib.import_module(modname)
     if getattr(mod, 'NEEDS_TF', True):
       import tensorflow as tf
@@ -238,7 +243,12 @@ def main(argv=None):
         continue
       r['replay_result'] = o
       if not o.get('reproduced'):
-        nonrepro.append(r)
+        if r.get('weak_witness'):
+          r['verdict'] = 'unknown'
+          r['reason'] = 'exact-arithmetic witness without margin does not reproduce in floating point'
+          unknown.append(r)
+        else:
+          nonrepro.append(r)
         continue
       entry = None
       for e in known:
